@@ -847,6 +847,9 @@ void GridFourier::mergeRefinement(){
     int num_all_points = getNumLoaded() + getNumNeeded();
     values.setValues(std::vector<double>(Utils::size_mult(num_outputs, num_all_points), 0.0));
     acceptUpdatedTensors();
+    clearGpuCoefficients();
+    fourier_coefs = Data2D<double>(num_outputs, 2 * num_all_points); // all values are zero and so are the coefficients
+    max_power = MultiIndexManipulations::getMaxIndexes(points);
 }
 
 void GridFourier::beginConstruction(){
